@@ -1,4 +1,6 @@
 import RxProofs.Lemmas.Thr2Lock
+import RxProofs.Lemmas.Thr2Merge
+import RxProofs.Lemmas.Thr2Token
 import RxModel.Thr2Table
 import RxGen.Locks
 /-!
@@ -72,6 +74,61 @@ theorem amb_serial {α} (ls rs : List (Notif α)) (sch : List Nat) :
     sch (init none (ambProgs ls rs)) ⟨init_AmbInv ls rs, init_AG _ _⟩
   exact ⟨h.2.1.1, h.2.2.1⟩
 
+/-- **guarded_terminal_final.** Programs may mix locked blocks, atomic steps OUTSIDE the lock (operations on a
+self-synchronised container such as `group.add`) and unlocked calls.  If, as a property of the program text,
+(`HQT`) from any state satisfying `Q` no step makes a downstream call and `Q` is kept, and (`EMT`) every step
+that makes the call `c` lands in `Q`, then for any number of threads and any schedule the call `c` is made at
+most once and nothing is called after it (operator level, before the downstream observer filters anything),
+and once it has been made `Q` holds. -/
+theorem guarded_terminal_final {σ α} (Q : σ → Prop) (c : Notif α) (s0 : σ) (progs : Nat → TProg σ α)
+    (h1 : ∀ i, HQT Q (progs i)) (h2 : ∀ i, EMT Q c (progs i)) (sch : List Nat) :
+    Final c (runSched (init s0 progs) sch).calls ∧
+      (c ∈ (runSched (init s0 progs) sch).calls → Q (runSched (init s0 progs) sch).st) := by
+  have h := runSched_inv (FInv Q c) (fun S i S' hI hs => step_FInv Q c S S' i hI hs) sch (init s0 progs)
+    (init_FInv Q c s0 progs h1 h2)
+  exact ⟨h.2.2, h.2.1⟩
+
+/-- **merge_all_grammar.** `merge_all` / `flat_map` (outer `on_next` = `group.add` as an atomic step outside the
+lock, everything else under `source.lock`): for every sequence of outer events, any number of inner sources
+with arbitrary notification sequences, and every schedule,
+(1) no two threads are ever inside a downstream callback and the subscriber sees `next* terminal?`;
+(2) at operator level `on_completed` is called at most once, nothing is called after it, and it is called only
+when the outer has completed and no inner subscription is left. -/
+theorem merge_all_grammar {α} (outer : List OEv) (inners : Nat → List (Notif α)) (sch : List Nat) :
+    let S := runSched (init ({} : MS) (mergeProgs outer inners)) sch
+    (S.maxActive ≤ 1 ∧ Grammar S.delivered) ∧
+      Final .completed S.calls ∧ (Notif.completed ∈ S.calls → S.st.oc = true ∧ S.st.live = []) := by
+  intro S
+  have hn : ∀ i, NoUCall (mergeProgs outer inners i) := by
+    intro i; cases i with
+    | zero => exact noUCall_outerProg outer
+    | succ k => exact noUCall_innerProg k (inners k)
+  have hq : ∀ i, HQT mDone (mergeProgs outer inners i) := by
+    intro i; cases i with
+    | zero => exact hqt_outerProg outer
+    | succ k => exact hqt_innerProg k (inners k)
+  have he : ∀ i, EMT mDone (.completed : Notif α) (mergeProgs outer inners i) := by
+    intro i; cases i with
+    | zero => exact emt_outerProg outer
+    | succ k => exact emt_innerProg k (inners k)
+  exact ⟨locked_calls_exclusive _ _ hn sch, guarded_terminal_final mDone .completed _ _ hq he sch⟩
+
+/-- **amb_n_serial.** n-ary `amb` (`rx.amb(s₀ … sₙ₋₁)` = the fold of the binary operator: stage `j` has source
+`j` on the left and the output of stage `j-1` on the right, its own lock and its own choice cell; each
+`with lock: choice_side()` is one atomic test-and-set): for every `n`, all notification sequences (losers
+may go on emitting) and every schedule, no two threads are ever inside a downstream callback and the
+subscriber sees a well-formed sequence — the source that is the choice of every stage it passes through is
+unique. -/
+theorem amb_n_serial {α} (n : Nat) (srcs : Nat → List (Notif α)) (sch : List Nat) :
+    (runSched (init (fun _ => none) (ambNProgs n srcs)) sch).maxActive ≤ 1 ∧
+      Grammar (runSched (init (fun _ => none) (ambNProgs n srcs)) sch).delivered := by
+  have h := runSched_inv (fun S => TInv AUpd (AW n) S ∧ A S ∧ G S)
+    (fun S i S' ⟨hI, hA, hG⟩ hs =>
+      ⟨step_TInv AUpd (AW n) (AW_stable n) S S' i hI hs,
+       step_AG S S' i (TInv_X AUpd (AW n) (AW_excl n) S hI) hA hG hs⟩)
+    sch (init (fun _ => none) (ambNProgs n srcs)) ⟨init_TInv_amb n srcs, init_AG _ _⟩
+  exact ⟨h.2.1.1, h.2.2.1⟩
+
 /-! The hypothesis is necessary — this is the defect of the unfixed `zip` / `combine_latest` /
 `with_latest_from` / `merge`: thread 0 delivers `on_next` under the lock, thread 1 calls `on_error`
 without it. -/
@@ -124,5 +181,16 @@ example : (runSched (init 0 lockedDemo) [1, 1, 0, 1, 0, 1, 1, 1, 1, 1, 0, 0, 0, 
 -- amb: both sides race; the right side is chosen, the left is silenced
 example : (runSched (init none (ambProgs [Notif.next 1, .completed] [Notif.next 2, .error "e"]))
     [1, 0, 1, 1, 0, 0, 0, 1, 1, 1, 1, 1, 1, 1, 1, 1, 0, 0, 0, 0, 0]).delivered = [.next 2, .error "e"] := by decide
+
+-- merge_all: the outer emits inner 0 and completes, inner 0 emits and completes on its own thread:
+-- `completed` is called by the inner's handler (the last subscription leaving the group), once
+example : (runSched (init ({} : MS) (mergeProgs [.inner 0, .comp] (fun _ => [Notif.next 7, .completed])))
+    [0, 1, 1, 1, 1, 1, 1, 0, 0, 0, 1, 1, 1, 1, 1, 1]).calls = [.next 7, .completed] := by decide
+-- an inner that completed BEFORE it was subscribed: its completion is replayed inside the outer on_next
+example : (runSched (init ({} : MS) (mergeProgs [.comp] (fun _ => [])))
+    [0, 0, 0, 0, 0, 0]).calls = [Notif.completed (α := Nat)] := by decide
+-- three-way amb: source 1 wins its own stage and stage 2; sources 0 and 2 are silenced
+example : (runSched (init (fun _ => none) (ambNProgs 3 (fun i => [Notif.next i, .completed])))
+    [1, 1, 0, 2, 0, 1, 1, 1, 1, 1, 1, 1, 1, 2, 0]).delivered = [.next 1, .completed] := by decide
 
 end C43
